@@ -98,10 +98,10 @@ theorem C05_end_to_end_only_stale {P : Input} {w0 : World} {F : Option Int} {c0 
     s.begun.Nodup := by
   refine ⟨?_, ?_, Engine.C04_once (engine_wf P) h⟩
   · intro i hb
-    obtain ⟨h1, h2⟩ := write_node_reg S.wf (begun_built S h (xinv_reach S h) hb).2
+    obtain ⟨h1, h2⟩ := write_node_reg S.wf (begun_built S h (fun _ hh => hh) (okd_begun h) (xinv_reach S h) hb).2
     exact ⟨h1, by rw [← S.stale]; exact h2⟩
   · intro i sr hr hns hb
-    refine kept_orig_pruned S.wf hr ?_ (begun_built S h (xinv_reach S h) hb).1
+    refine kept_orig_pruned S.wf hr ?_ (begun_built S h (fun _ hh => hh) (okd_begun h) (xinv_reach S h) hb).1
     rcases hns with h1 | h1
     · exact Or.inl h1
     · exact Or.inr (by rw [S.stale]; exact h1)
